@@ -1263,6 +1263,10 @@ func (ind *Indentation) TrackAfter(mkline *MkLine) {
 
 	switch directive {
 	case "if", "elif":
+		if ind.IsEmpty() { // Can only happen for an unmatched .elif.
+			break
+		}
+
 		cond := mkline.Cond()
 		if cond == nil {
 			break
